@@ -548,8 +548,7 @@ pub(crate) fn tokenize_file(ctx: &mut StaticsContext, file_id: FileId) -> Vec<To
                     let mut next = 2;
                     while let Some(c) = lexer.peek_char(next)
                         && let Some(c2) = lexer.peek_char(next + 1)
-                        && c != '*'
-                        && c2 != '/'
+                        && !(c == '*' && c2 == '/')
                     {
                         next += 1;
                     }
